@@ -398,10 +398,12 @@ PROPERTIES["C17"] = {
                      bounds="PackageBuilder::add_data (the part of with_file after reading the source)", timeout=900, tier=("quick" if n <= 5 else "thorough"),
                      covers_unsat_ok=["destination accepted", "destination rejected"]) for n in range(0, 7)]
     + [MH("c17_caps_" + n, inputs="capability text of shape " + n, bounds="FileOptionsBuilder::caps", timeout=600, covers_unsat_ok=["capabilities accepted", "capabilities rejected"])
-       for n in ("sym2", "sym3", "chown_sym2", "two")]
+       for n in ("sym2", "sym3", "chown_sym2", "two", "nonascii_a", "nonascii_b", "nonascii_c", "nonascii_d", "nonascii_e")]
+    + [MH("c17_name_%d" % n, inputs="package name of %d symbolic lower-case letters" % n, bounds="PackageBuilder::new(name, ..).build(): the lead keeps 65 name bytes", timeout=600) for n in (64, 65, 66, 67, 300)]
+    + [MH("c17_version_300", inputs="version of 300 symbolic lower-case letters", bounds="PackageBuilder::new(.., version, ..).build()", timeout=600)]
     + [MH("c17_level_" + w, inputs="compression level: every %s value" % ("i32" if w == "zstd" else "u32"), bounds="Compressor::try_from(CompressionWithLevel::%s(level))" % w.capitalize(), timeout=300,
           covers_unsat_ok=["level accepted", "level rejected"]) for w in ("gzip", "xz", "bzip2", "zstd", "none")],
-    "bounds": "every destination string of up to 6 characters over {'/', '.', 'a'}; capability text shapes as in C19 (subset); every 32-bit compression level for each compressor",
+    "bounds": "every destination string of up to 6 characters over {'/', '.', 'a'}; capability text shapes as in C19 (subset) plus five literal texts with multi-byte characters; package names of 64..67 and 300 bytes; every 32-bit compression level for each compressor",
     "outside": "what the encoders do after construction (C libraries behind FFI): only the level check of their Rust constructors is modelled (contract stubs read from the pinned crate sources, validated against the real constructors on every run); "
                "the metadata setters take any String and store it (no failure path); reading the source file (file system)",
     "assumptions": A_MIR + ["std::path is modelled (Unix component rules: root, '.', '..', repeated separators); the model is validated on every run against the real builder on 78 concrete destinations",
